@@ -9,7 +9,8 @@ use hyperdriver::client::pool::{PoolableConnection, PoolableStream, Pooled};
 use hyperdriver::info::{ConnectionInfo, HasConnectionInfo};
 use hyperdriver::service::ExecuteRequest;
 use hyperdriver::Body;
-use std::cell::RefCell;
+use std::cell::{Cell, RefCell};
+use std::sync::{Arc, Mutex};
 use std::fmt;
 use std::future::Future;
 use std::pin::Pin;
@@ -95,7 +96,6 @@ pub struct Exchange {
 #[derive(Default, Debug)]
 pub struct World {
     pub step: u32,
-    pub actor: Option<Actor>,
     pub split_handshake: bool,
     /// is_open() == open && !busy (mirrors HttpConnection) when true; == open when false
     pub strict_is_open: bool,
@@ -110,16 +110,52 @@ pub struct World {
     pub request_h2: Vec<bool>,
 }
 
+/// The world of the execution running on this thread. It is a shared handle so that the helper
+/// threads of the interleaving engine (`conc.rs`) can be given the world of the worker they
+/// belong to; only one of those threads runs at any time (baton passing), so the mutex is never
+/// contended.
+pub type WorldHandle = Arc<Mutex<World>>;
+
 thread_local! {
-    pub static WORLD: RefCell<World> = RefCell::new(World::default());
+    static WORLD: RefCell<WorldHandle> = RefCell::new(Arc::new(Mutex::new(World::default())));
+    static ACTOR: Cell<Option<Actor>> = const { Cell::new(None) };
 }
 
 pub fn with<R>(f: impl FnOnce(&mut World) -> R) -> R {
-    WORLD.with(|w| f(&mut w.borrow_mut()))
+    WORLD.with(|w| {
+        let h = w.borrow();
+        let mut g = h.lock().unwrap_or_else(|e| e.into_inner());
+        f(&mut g)
+    })
+}
+
+/// Like `with`, but a no-op when the thread-local is already gone (thread teardown).
+fn try_with(f: impl FnOnce(&mut World)) {
+    let _ = WORLD.try_with(|w| {
+        if let Ok(h) = w.try_borrow() {
+            let mut g = h.lock().unwrap_or_else(|e| e.into_inner());
+            f(&mut g)
+        }
+    });
+}
+
+/// This thread's world handle (to be installed on a helper thread).
+pub fn handle() -> WorldHandle {
+    WORLD.with(|w| w.borrow().clone())
+}
+
+/// Make this thread use another thread's world.
+pub fn install(h: WorldHandle) {
+    WORLD.with(|w| *w.borrow_mut() = h);
+}
+
+/// Who is calling into the library on this thread (attribution of dials and readiness polls).
+pub fn set_actor(a: Option<Actor>) {
+    ACTOR.with(|c| c.set(a));
 }
 
 fn actor() -> Actor {
-    with(|w| w.actor.unwrap_or(Actor::None))
+    ACTOR.with(|c| c.get()).unwrap_or(Actor::None)
 }
 
 // ---------------------------------------------------------------------------------------------
@@ -373,8 +409,7 @@ impl Drop for HConn {
     fn drop(&mut self) {
         let c = self.c;
         // The world may already be gone during thread-local teardown; ignore then.
-        let _ = WORLD.try_with(|w| {
-            let mut w = w.borrow_mut();
+        try_with(|w| {
             if let Some(cs) = w.conns.get_mut(c) {
                 cs.handles -= 1;
             }
@@ -539,8 +574,7 @@ impl Future for ExchangeFuture {
 impl Drop for ExchangeFuture {
     fn drop(&mut self) {
         let x = self.x;
-        let _ = WORLD.try_with(|w| {
-            let mut w = w.borrow_mut();
+        try_with(|w| {
             if let Some(e) = w.exchanges.get_mut(x) {
                 e.dropped = true;
                 let c = e.conn;
